@@ -385,7 +385,16 @@ def correspondence(ctx, nm_obs, real_obs):
         ctx.seen(("nm", o["toy"]["kind"], o["g0"], o["g1"], o["max_iter"], o["min"], o["max"], o["tol"]))
         ctx.count(f"nm:kind{o['toy']['kind']}")
         if not o["result"]["ok"]:
-            ctx.violation("S4", f"nelder_mead_1d panicked on a finite cost function: {o['result']['panic'][:100]}", {"kind": "nm_panic"}, o)
+            t = o["toy"]
+            ctx.violation("S4", f"math::nelder_mead_1d panicked on toy cost kind {t['kind']} (a = {fl(t['a'])!r}, b = {fl(t['b'])!r}; kind 7 is NaN on (a, a + 2)), "
+                          f"seeds ({fl(o['g0'])!r}, {fl(o['g1'])!r}), bounds [{fl(o['min'])!r}, {fl(o['max'])!r}], max_iter {o['max_iter']}: {o['result']['panic'][:90]}",
+                          {"kind": "nm_panic", "toy_kind": t["kind"]},
+                          {"toy": t, "g0": fl(o["g0"]), "g1": fl(o["g1"]), "max_iter": o["max_iter"], "min": fl(o["min"]), "max": fl(o["max"]), "tol": fl(o["tol"]),
+                           "call": "spdcalc::math::nelder_mead_1d(toy, (g0, g1), max_iter, min, max, tol)"})
+            cid = f"nmpanic{o['i']}"
+            exprs.append((cid, f"nm_check_panic (toy {t['kind']} {fq(t['a'])} {fq(t['b'])} {fq(t['h'])}) {fq(o['g0'])} {fq(o['g1'])} {o['max_iter']} "
+                               f"{fq(o['min'])} {fq(o['max'])} {fq(o['tol'])}"))
+            meta[cid] = ("toy_panic", o)
             continue
         cid = f"nm{o['i']}"
         exprs.append((cid, nm_expr_toy(o)))
@@ -403,12 +412,15 @@ def correspondence(ctx, nm_obs, real_obs):
     for cid, (kind, o) in meta.items():
         out = res.get(cid)
         ctx.cov["obligations"] += 1
-        if out is not None and out.replace(" ", "").startswith("(true,true,"):
+        if out is not None and (out.replace(" ", "").startswith("(true,true,") or (kind == "toy_panic" and out.strip() == "true")):
             nok += 1
             ctx.cov["discharged"] += 1
             continue
         ctx.case_failures.append({"case": cid, "coq": out})
-        if kind == "toy":
+        if kind == "toy_panic":
+            ctx.violation("S4", "nelder_mead_1d panicked although the model says no NaN cost reaches the solver on that run", {"kind": "model_mismatch", "what": "nm_toy_panic"},
+                          {"toy": o["toy"], "model": out}, found_input=False)
+        elif kind == "toy":
             det = {"toy": o["toy"], "g0": fl(o["g0"]), "g1": fl(o["g1"]), "max_iter": o["max_iter"], "min": fl(o["min"]), "max": fl(o["max"]),
                    "tol": fl(o["tol"]), "rust_result": fl(o["result"]["x"]), "model": out}
             ctx.violation("S4", f"Nelder-Mead model and math::nelder_mead_1d disagree on a toy cost function (kind {o['toy']['kind']}): model says {out}",
@@ -421,9 +433,17 @@ def correspondence(ctx, nm_obs, real_obs):
 
 
 def replay(ctx, binp):
-    rec = json.load(open(ctx.replay))
+    path = ctx.replay if os.path.isabs(ctx.replay) or os.path.exists(ctx.replay) else os.path.join(VERIF, ctx.replay)
+    if not os.path.exists(path):
+        path = os.path.join(VERIF, ctx.replay)
+    rec = json.load(open(path))
     ro = rec.get("detail", {}).get("replay_obs")
     if not ro:
+        # a broken proof obligation / model mismatch without a failing input: replaying it means re-running translator, proofs and
+        # correspondence (the full pipeline below); it stays red while the obligation is still broken
+        ctx.log("replay: the record carries no input; re-running translator, proofs and correspondence")
+        return None
+    if False:
         ctx.note("replay file carries no input (the violation was a broken proof obligation / model mismatch without a failing input)")
         return finish(ctx)
     tmp = os.path.join(VERIF, "evidence", "replays", ".replay-input.json")
@@ -441,7 +461,9 @@ def replay(ctx, binp):
 def run(ctx):
     binp = build_harness(ctx)
     if ctx.replay:
-        return replay(ctx, binp)
+        rc = replay(ctx, binp)
+        if rc is not None:
+            return rc
     msgs, spans = regen(ctx, ["autocalc", "idler"])
     ctx.cov["translated_spans"] = {k: v for k, v in spans.items() if any(s in v["file"] for s in ("nelder_mead", "periodic_poling", "crystal_setup", "types.rs", "beam/mod", "delta_k"))}
     for m in msgs:
@@ -479,7 +501,7 @@ def run(ctx):
             oracle_theta(ctx, o2, [])
             if unknown_failing_input(ctx):
                 break
-    ctx.cov["rule"] = ("nm: cost functions |x-a|, (x-a)^2, asymmetric V, two-well, constant, step, max(|x-a|, 2|x-b|) with dyadic data, seeds/bounds on a 1/16 grid "
+    ctx.cov["rule"] = ("nm: cost functions |x-a|, (x-a)^2, asymmetric V, two-well, constant, step, max(|x-a|, 2|x-b|), and one that is NaN on an interval, with dyadic data, seeds/bounds on a 1/16 grid "
                        "(bounds sometimes excluding a seed), max_iter 0..40, tolerance in {0, 2^-10, 2^-20, 1e-6}. poling: case i has crystal i mod 11, type (i div 11) mod 5, "
                        "random orientation / temperature 0-100 C / length 1-30 mm / wavelengths in-window, signal polar angle 0-0.05 rad (15% collinear); "
                        "edge: collinear setups whose exact period 2 pi/|dkz0| is 0.05 um .. 100 um above / 0.5 um below a 1-3 mm crystal length; "
@@ -499,8 +521,8 @@ def run(ctx):
                                                      "after J + 1 + 2 m iterations unless the sd test stops earlier; the V shape of the evaluated costs is checked per input)",
         "auto angle in [0, 90] deg": "proved",
         "|dkz| L/2 < 1e-3 at the auto angle when some angle phase-matches": "proved_partial (same contract; fails for F4)",
-        "argmin / binary64": "modelled line by line for two vertices; NaN costs not modelled (C17); the binary64 instance refines the real instance "
+        "argmin / binary64": "modelled line by line for two vertices; a NaN cost follows the translated Cost1d::cost (+infinity since d569966; before it the run is `not defined` and the implementation panics); the binary64 instance refines the real instance "
                              "wherever every operation is exact (C04_float_refines_real, via C04_nm_simulation)"}
     return finish(ctx, assumptions=["argmin 0.10 NelderMead/Executor are modelled for two vertices from their source; the model is validated bit-exactly each run, not proved equal",
                                     "the residual clauses are conditional on the simplex contract (convergence of a direct search is not a theorem; see Findings/C04_findings.v)",
-                                    "NaN costs (panic path) are out of scope (C17)"])
+                                    "NaN costs follow the flag read off Cost1d::cost (Gen/AutoCalc.v: nm_nan_cost_is_infinite); NaN never enters the generic theorems (orders without NaN)"])
